@@ -30,12 +30,22 @@ WITNESSES = [".^$*+?{}[]()|\\/", "a.b", "\\d+", "(?:x)|y", "[a-z]{2,}", "\n\t #"
 MODULES = ["pregex.core.pre", "pregex.core.operators", "pregex.core.quantifiers", "pregex.core.groups", "pregex.core.assertions"]
 
 
+def escape_site(model):
+    """The function that escapes (located by role), or Pregex.__init__ when escaping is written inline."""
+    try:
+        return model.method(PRE, "Pregex", "__escape")
+    except AnalysisError:
+        return model.method(PRE, "Pregex", "__init__")
+
+
 def escape_of(model, s, order=0):
-    f = model.method(PRE, "Pregex", "__escape")
+    """What the library turns the plain string s into: the pattern text of Pregex(s) (wherever the escaping is written)."""
+    from ..absdom import F
     interp_mod.SET_ORDER = order
     try:
         it = Interp(model, PregexHooks(model))
-        return it.call(FuncRef(f), [s])
+        o = it.construct(model.pregex, [s])
+        return o.fields.get(F(model).pattern)
     finally:
         interp_mod.SET_ORDER = 0
 
@@ -47,9 +57,9 @@ def literal_seq(s):
 def touched_chars(model):
     """Characters mentioned by constants of __escape, and whether its body is of the recognised
     replace-only shape (then every other character is provably left alone)."""
-    f = model.method(PRE, "Pregex", "__escape")
+    f = escape_site(model)
     chars = set()
-    simple = True
+    simple = f.node.name != "__init__"
     for node in ast.walk(f.node):
         if isinstance(node, ast.Constant) and isinstance(node.value, str) and node is not ast.get_docstring(f.node):
             if len(node.value) <= 2:
@@ -92,7 +102,7 @@ def run(ctx, model):
         "group-name parameters are validated, not escaped (C08 R-NAME); in-class escaping is C06",
     ]
     B.prepare(model)
-    esc_f = model.method(PRE, "Pregex", "__escape")
+    esc_f = escape_site(model)
 
     # ---------------- R-ESC
     touched, simple = touched_chars(model)
